@@ -131,7 +131,7 @@ def doGet (st : St) (label : Bytes) : St × String :=
       match st.pool.find? (fun p => p.1 == label) with
       | some (_, c) => (st, cachedStr c)
       | none =>
-        match findDetail st.v t label t.cells.tail with
+        match findDetail st.v t label (if st.v.guards then t.cells else t.cells.tail) with
         | .found e n =>
           match poolActive st.sc.nActions e with
           | none => (st, "panic")
@@ -157,7 +157,8 @@ def step (st : St) (line : String) : St × String :=
   | "dataset" :: _ => ({ st with table := none, pool := [], pfm := none, text := [] }, "ok")
   | ["getvalid", _] => (st, "go-only")
   | ["layout", _] => (st, "splittable")
-  | ["variant", a, b, c] => ({ st with v := ⟨a == "1", b == "1", c == "1"⟩ }, "ok")
+  | ["variant", a, b, c] => ({ st with v := ⟨a == "1", b == "1", c == "1", false⟩ }, "ok")
+  | ["variant", a, b, c, d] => ({ st with v := ⟨a == "1", b == "1", c == "1", d == "1"⟩ }, "ok")
   | ["fmtv", bits] =>
     match hexNat bits with
     | some n => (st, hx (fmtV n))
